@@ -52,7 +52,8 @@ Inductive xexpr :=
 | ECmp (c : xcmpop) (l r : xexpr)
 | EAnd (l r : xexpr)
 | EOr (l r : xexpr)
-| ECall (f : bytes) (args : list xexpr).
+| ECall (f : bytes) (args : list xexpr)
+| EParen (e : xexpr).   (* parentheses the user wrote although the grammar does not need them *)
 
 Inductive xetop :=
 | ETop (e : xexpr)
@@ -290,6 +291,7 @@ Fixpoint pr (p : nat) (e : xexpr) {struct e} : list xtoken :=
            | [] => [TRP]
            | a :: l' => (if first then [] else [TComma]) ++ pr 0 a ++ go false l'
            end) true args
+    | EParen x => TLP :: pr 0 x ++ [TRP]
     end in
   if Nat.leb p (xlevel e) then body else TLP :: body ++ [TRP].
 
@@ -306,6 +308,7 @@ Fixpoint elab (p : nat) (e : xexpr) {struct e} : xnode :=
     | EBin OPow l r => NBin OPow (elab 6 l) (elab 5 r)
     | EBin o l r => NBin o (elab (binop_level o) l) (elab (S (binop_level o)) r)
     | ECall g args => NFun g (map (elab 0) args)
+    | EParen x => NParen (elab 0 x)
     end in
   if Nat.leb p (xlevel e) then body else NParen body.
 
